@@ -87,7 +87,18 @@ def affine_kv(kv, A, B):
 
 
 @st.composite
-def affine(draw):
+def affine(draw, extreme=()):
+    """Affine image [A, A + B] of the unit range.  ``extreme``: the additional classes a check opts into ("far", "tiny", "long")."""
+    cls = draw(st.sampled_from(["plain"] * 6 + list(extreme) * 2)) if extreme else "plain"
+    if cls == "far":
+        # a parameter range far from the origin (chainage, time stamps): start of large magnitude, ordinary length
+        return [draw(st.sampled_from([1000.0, -1001.0, 2.0 ** 20, 25000000.0, 1700000000.0])), draw(st.sampled_from([0.5, 1.0, 2.0, 64.0]))]
+    if cls == "tiny":
+        # a very short range: knot spacing of 1e-5 .. 1e-6, refined spacing still above 2e-7 (the library identifies knots closer
+        # than 1e-7, so shorter ranges are outside the domain of every knot operation)
+        return [draw(st.sampled_from([0.0, -2.0 ** -14, 2.0 ** -10])), 2.0 ** -13]
+    if cls == "long":
+        return [draw(st.sampled_from([0.0, -4.0])), draw(st.sampled_from([2.0 ** 20, 2.0 ** 30]))]
     A = draw(st.integers(-32, 32)) / 8.0
     B = draw(st.sampled_from([0.5, 1.0, 2.0, 2.5, 3.0, 8.0]))
     return [A, B]
@@ -106,7 +117,7 @@ def points(draw, count, dim, distinct=False, lim=64):
 
 
 @st.composite
-def weights(draw, count, force=None):
+def weights(draw, count, force=None, spread=False):
     mode = force or draw(st.sampled_from(["varied", "varied", "const", "unit"]))
     if mode == "unit":
         return [1.0] * count
@@ -119,6 +130,10 @@ def weights(draw, count, force=None):
     if count >= 3 and draw(st.integers(0, 3)) == 0:
         # as in most real models (arcs, revolved shapes): unit weights at the first and last control point, others inside
         ws[0] = ws[-1] = 1.0
+    if spread and count >= 2 and sc == 1.0 and draw(st.integers(0, 5)) == 0:
+        # weights of widely differing magnitude (exact powers of two apart): 6e-8 ... 1e6 in one shape.  Opt-in: such a shape is so
+        # steep in its parameters that only checks which hand their own parameter values to the library can compare points
+        ws = [w * 2.0 ** draw(st.sampled_from([-24, -24, 0, 0, 0, 20])) for w in ws]
     return [w * sc for w in ws]
 
 
@@ -143,7 +158,7 @@ def sizes_degrees(draw, pdim, max_p, max_extra, different=False, min_p=1):
 @st.composite
 def spline(draw, kinds=("curve", "surface", "volume"), rational=None, max_p=4, max_extra=4, dims=None,
            unclamped=False, affine_range=False, normalize=None, different=False, distinct=False, kv_style=None,
-           min_p=1, vol_max_p=3, vol_max_extra=2, wmode=None, micro=False, long=False):
+           min_p=1, vol_max_p=3, vol_max_extra=2, wmode=None, micro=False, long=False, ranges=(), wspread=False):
     """A full shape definition.
       kind, rational, normalize, degree[], size[], kv[] (as given to the setters), P (flat, library order), W, dim
     long=True: once in a while a curve with 250..258 control points (more than 256 knots), uniform interior knots and
@@ -189,9 +204,9 @@ def spline(draw, kinds=("curve", "surface", "volume"), rational=None, max_p=4, m
     if affine_range:
         if affine_range == "maybe":
             if draw(st.booleans()):
-                aff = [draw(affine()) for _ in range(pdim)]
+                aff = [draw(affine(ranges)) for _ in range(pdim)]
         else:
-            aff = [draw(affine()) for _ in range(pdim)]
+            aff = [draw(affine(ranges)) for _ in range(pdim)]
     if aff and twin:
         aff[1] = list(aff[0])
     if aff:
@@ -203,7 +218,7 @@ def spline(draw, kinds=("curve", "surface", "volume"), rational=None, max_p=4, m
     for s in szs:
         count *= s
     P = draw(points(count, dim, distinct=distinct))
-    W = draw(weights(count, force=wmode)) if rat else None
+    W = draw(weights(count, force=wmode, spread=wspread)) if rat else None
     as_int = draw(st.integers(0, 9)) == 0
     if as_int:
         P = [[c * 8.0 for c in q] for q in P]          # whole numbers, which build.make hands over as ints
@@ -216,7 +231,11 @@ def param_desc(draw):
     """Descriptor of a parameter in one direction, resolved against the built object's own knot vector:
        ["in", span_selector, num/64] strictly inside a non-empty span; ["knot", selector] on an interior knot
        (falls back to 'in' when there is none); ["start"]; ["end"]."""
-    k = draw(st.sampled_from(["in", "in", "knot", "knot", "start", "end", "other", "near", "decimal", "within", "zero"]))
+    k = draw(st.sampled_from(["in", "in", "knot", "knot", "start", "end", "other", "near", "decimal", "within", "zero", "edge"]))
+    if k == "edge":
+        # 2^-24 (or 2^-36, or one unit in the last place) inside the domain, next to its start or its end
+        return ["edge", draw(st.integers(0, 63)), draw(st.integers(1, 63)) / 64.0, draw(st.sampled_from([-1, 1])),
+                draw(st.sampled_from([2.0 ** -24, 2.0 ** -24, 2.0 ** -36, 0.0]))]
     if k == "zero":
         # the parameter 0.0 itself when it lies strictly inside the domain (domains of shapes kept in their original range)
         return ["zero", draw(st.integers(0, 63)), draw(st.integers(1, 63)) / 64.0]
